@@ -51,9 +51,17 @@ static void use_item(const jwk_item_t *it) {
 }
 
 // entry: 0 create_strn 1 load_strn(existing) 2 create(cstr) 3 load(existing,cstr) 4 fromfp 5 fromfile(memfd)
-static void load_with_oracle(int entry, int prov, const std::string &bytes) {
+static void load_with_oracle_inner(int entry, int prov, const std::string &bytes);
+// guard = the application has installed its own allocator: nothing it did not hand out may reach its free hook
+static void load_with_oracle(int entry, int prov, const std::string &bytes, bool guard = false) {
+  jwt_set_alloc(NULL, NULL);
+  if (guard) { guard_foreign_frees() = 0; jwt_set_alloc(guard_malloc, guard_free); fs().cls("with-application-allocator"); }
+  load_with_oracle_inner(entry, prov, bytes);   // every jansson object of the oracle dies inside
+  if (guard) { jwt_set_alloc(NULL, NULL); if (guard_foreign_frees()) oracle_fail("pointer-not-from-installed-allocator-passed-to-its-free", "entry=" + std::to_string(entry) + " doc=" + bytes.substr(0, 400)); }
+}
+static void load_with_oracle_inner(int entry, int prov, const std::string &bytes) {
   FStats &st = fs();
-  jwt_set_alloc(NULL, NULL); set_provider(prov); set_now(1700000000);
+  set_provider(prov); set_now(1700000000);
   st.evaluations++;
   entry %= 6;
   std::string DOC = bytes;
